@@ -390,6 +390,10 @@ pub fn replay_json(prop: &str, ctx: &SpecCtx, case: &Case, reason: &str, exp: &T
 /// /verif/corpus/<ID>/*.json in the Engine A replay format. Each entry is re-run first, as a plain
 /// regression case that does not depend on the random generators.
 pub fn load_corpus(prop_id: &str) -> Vec<(Spec, Case)> {
+    // VERIF_NO_CORPUS=1: used by tools/regress_seeds.sh to measure what the generators alone find
+    if std::env::var("VERIF_NO_CORPUS").map(|v| v == "1").unwrap_or(false) {
+        return vec![];
+    }
     let dir = verif("corpus").join(prop_id);
     let mut files: Vec<std::path::PathBuf> = match std::fs::read_dir(&dir) {
         Ok(rd) => rd.flatten().map(|e| e.path()).filter(|p| p.extension().map(|x| x == "json").unwrap_or(false)).collect(),
